@@ -139,13 +139,15 @@ def build_harness(name, variant="asan", with_env=True, with_sched=False, extra_f
     """returns path of the harness binary"""
     objs = []
     lib = build_lib(variant, wrap=with_env)
-    objs.append(cc_obj(variant, os.path.join(VERIF, "harness", name + ".c"), extra_flags))
+    # under TSan only the library objects are instrumented: harness, environment and scheduler share model
+    # state under the serialising scheduler and must stay invisible to the race detector
+    san = variant != "tsan"
+    objs.append(cc_obj(variant, os.path.join(VERIF, "harness", name + ".c"), extra_flags, sanitize=san))
     if with_env:
         objs.append(cc_obj(variant, os.path.join(VERIF, "mc", "mc.c"), sanitize=False))
-        objs.append(cc_obj(variant, os.path.join(VERIF, "mc", "env.c"), extra_flags))
+        objs.append(cc_obj(variant, os.path.join(VERIF, "mc", "env.c"), extra_flags, sanitize=san))
         if with_sched:
             objs.append(cc_obj(variant, os.path.join(VERIF, "mc", "sched.c"), sanitize=False))
-            objs.append(cc_obj(variant, os.path.join(VERIF, "mc", "schedenv.c"), extra_flags))
     return link(variant, name + ("_mt" if with_sched else ""), objs + lib)
 
 
